@@ -16,7 +16,8 @@ THEOREMS_MAIN = ["C11_shape_or_error", "C11_error_iff", "C11_truncate_reads", "C
 # frequency-set model Model/Solver.v cell by cell (Proofs/ArrayRefine.v)
 THEOREMS_ARRAY = ["C11_array_refines_spec", "C11_array_error_iff", "C11_array_source_spectrum", "C11_array_scatter",
                   "C11_array_back_pipe", "C11_array_untruncate_sum", "C11_array_slices_in_range",
-                  "C11_array_flux_sum", "C11_array_conc_sum", "C11_array_footprint_mass", "C11_array_nonvacuous"]
+                  "C11_array_flux_sum", "C11_array_conc_sum", "C11_array_footprint_mass", "C11_array_lowpass",
+                  "C11_array_nonvacuous"]
 THEOREMS = THEOREMS_MAIN + THEOREMS_ARRAY
 TRUSTED = _T + [
     "numpy.fft.fftshift/ifftshift are rolls by n//2 and -(n//2); np.pad/slicing semantics (Proofs/Plumbing.v models them as functions of an integer index)",
